@@ -1,7 +1,7 @@
 (* C01 - property theorems.  Statements, `exact <lemma>`, Print Assumptions. *)
 From Coq Require Import String ZArith List Bool Permutation.
 From HD Require Import Base.Val C01_Model C01_Proofs C01_Proofs_Frames C01_Proofs_Lut C01_Proofs_Value C01_Proofs_Full
-  C01_Proofs_Hist C01_Proofs_Ext C01_Proofs_Sched.
+  C01_Proofs_Hist C01_Proofs_Ext C01_Proofs_Sched C01_Proofs_Accept.
 Import ListNotations.
 Open Scope Z_scope.
 
@@ -479,3 +479,53 @@ Example C01_nonvacuous_extension :
   end.
 Proof. exact nonvacuous_extension. Qed.
 Print Assumptions C01_nonvacuous_extension.
+
+(* ------------------------------------------------------------------ *)
+(* acceptance, both directions                                          *)
+(* ------------------------------------------------------------------ *)
+(* the converse of C01_construct_succeeds: an array as numpy hands it over
+   (well_formed: planes of Rows*Columns values, unsigned integers non-negative,
+   float label array = one segment, den > 0, max_fractional_value >= 0 - no
+   condition on the CONTENT of the mask) that the constructor accepts is valid *)
+Theorem C01_construct_ok_valid : forall c i perm st,
+  construct c i perm = Ok st -> well_formed c i = true -> valid c i = true.
+Proof. exact construct_ok_valid. Qed.
+Print Assumptions C01_construct_ok_valid.
+
+(* accepted <-> valid *)
+Theorem C01_accepted_iff_valid : forall c i perm,
+  well_formed c i = true -> Permutation perm (zrange (nsrc c)) ->
+  1 <= zlen (segs c) -> (ty c = FRACTIONAL -> 1 <= maxfrac c) ->
+  ((exists st, construct c i perm = Ok st) <-> valid c i = true).
+Proof. exact accepted_iff_valid. Qed.
+Print Assumptions C01_accepted_iff_valid.
+
+(* THE PROPERTY with no hypothesis on the content of the mask: whatever
+   well-formed array the constructor accepts reads back as the specification, for
+   every request list passing the guards, from every object and cache state -
+   "whatever mask a user stores is exactly the mask they get back" *)
+Theorem C01_no_silent_corruption : forall c i perm st,
+  well_formed c i = true -> Permutation perm (zrange (nsrc c)) -> construct c i perm = Ok st ->
+  forall lazy warm req byframe am,
+    read_guard st req byframe am = Ok tt ->
+    read_g (frame_getter lazy warm st) st req byframe am = Ok (expected_req c i byframe req).
+Proof. exact no_silent_corruption. Qed.
+Print Assumptions C01_no_silent_corruption.
+
+(* non-vacuity: well-formed inputs that are valid and accepted, and well-formed
+   inputs that are not valid (undescribed label 3; overlapping LABELMAP stack) and
+   are refused *)
+Example C01_nonvacuous_acceptance :
+  let c1 := Cfg BINARY DInt 1 1 true [1; 2] 1 3 1 3 3 true in
+  let i1 := Stack [[[1;0];[0;0];[0;1]]; [[0;0];[0;0];[0;0]]; [[0;1];[1;0];[1;0]]] in
+  let c2 := Cfg LABELMAP DInt 1 1 false [2; 300] 1 3 1 3 2 true in
+  let c4 := Cfg LABELMAP DFloat 4 1 true [5; 7] 1 2 1 2 2 false in
+  well_formed c1 i1 = true /\ (exists st, construct c1 i1 [2;0;1] = Ok st) /\ valid c1 i1 = true /\
+  well_formed c2 (Label [[0;300;3]; [2;2;0]]) = true /\ valid c2 (Label [[0;300;3]; [2;2;0]]) = false /\
+  construct c2 (Label [[0;300;3]; [2;2;0]]) [1;0] = Err "ValueError"%string /\
+  well_formed c4 (Stack [[[4;4];[0;0]]; [[0;4];[0;4]]]) = true /\
+  construct c4 (Stack [[[4;4];[0;0]]; [[0;4];[0;4]]]) [0;1] = Err "ValueError"%string /\
+  well_formed c4 (Stack [[[4;0];[0;0]]; [[0;4];[0;4]]]) = true /\
+  (exists st, construct c4 (Stack [[[4;0];[0;0]]; [[0;4];[0;4]]]) [0;1] = Ok st).
+Proof. exact nonvacuous_acceptance. Qed.
+Print Assumptions C01_nonvacuous_acceptance.
